@@ -13,6 +13,7 @@ ASSUMPTIONS = ["G::random of bls12_381 0.4 never returns the identity, so the id
                "outside; it is covered by the theorem and by re-decoding only (a mutation removing it is behaviourally "
                "invisible with this dependency)"]
 NS = [1, 2, 3, 5, 8, 13, 17, 34]
+G1_ID_HEX = "c0" + "00" * 47
 
 
 def run(run, h):
@@ -49,6 +50,10 @@ def run(run, h):
         run.case(case)
         run.count("range_params_new")
         run.check_monitor("range_parameters_validate", (h.try_call("rp_validate", rp) or ["0"])[0] == "1", case)
+        # each digit signature is made with its own fresh non-identity base: 128 pairwise different first elements (signatures
+        # sharing a base are linearly related - from two of them a signature on any value follows)
+        s1 = [rp[192 * k:192 * k + 96] for k in range(128)]
+        run.check_monitor("digit_signatures_have_independent_bases", len(set(s1)) == 128 and G1_ID_HEX not in s1, case)
         run.check_monitor("generated_values_pass_decode_validation", h.call("decode", "RangeConstraintParameters", rp) == ["ok", rp], case)
     h.rng(rng.randrange(2 ** 31), [0, 0, rand_nz(rng), 0])
     t = h.call("m_new")
@@ -68,13 +73,21 @@ def key_case(run, h, pts, batch, rng, n, idx, w):
         tape = nz[:idx] + [0] * w + nz[idx:]
     seed = rng.randrange(2 ** 31)
     h.begin()
-    key = generated_key(h, pts, n, seed, tape)
+    # the window's draws reduce to the zero scalar; the 64-byte blocks behind them are all-zero or - every other run - non-zero
+    # multiples of q (q, 2q in the low half; q * 2^256 with an all-zero low half; a random multiple below 2^512)
+    blocks = None
+    if idx is not None and rng.random() < 0.5:
+        zero_like = [Q, 2 * Q, Q << 256, Q * rng.randrange(1, 2 ** 256), 0]
+        blocks = nz[:idx] + [rng.choice(zero_like) for _ in range(w)] + nz[idx:]
+    key = generated_key(h, pts, n, seed, tape, blocks=blocks)
     served, _ = h.served()
     a = key["atoms"]
-    case = {"op": "keygen", "N": n, "zero_window": [idx, w], "tape": tape, "script": h.end()}
+    case = {"op": "keygen", "N": n, "zero_window": [idx, w], "tape": tape, "blocks": [hex(b) for b in blocks] if blocks else None,
+            "script": h.end()}
     run.case(case, nontrivial=(idx is not None))
     run.count("keygen N%d" % n)
     run.count("window width %d" % w)
+    run.count("window blocks: " + ("non-zero multiples of q" if blocks else "all-zero"))
     sk = [a["x"]] + a["ys"]
     run.check_monitor("secret_scalars_nonzero", all(s != 0 for s in sk), dict(case, sk=sk))
     # order-free relation to the stream: the secret scalars are exactly the non-zero draws that were served
